@@ -17,10 +17,14 @@ from pathlib import Path
 VERIF = Path(__file__).resolve().parent.parent
 REPO = Path(os.environ.get("VERIF_REPO", "/repo")).resolve()
 SPEC = VERIF / "spec"
-GEN = SPEC / "gen"
 EVIDENCE = VERIF / "evidence"
 REPLAYS = VERIF / "replays"
 WORKROOT = VERIF / ".work"
+# constants extracted from the working tree (Impl_*.tla): one directory per run, so that concurrent checks - of /repo and of
+# scratch copies - never read each other's extraction; child processes inherit the owner's directory
+GEN = Path(os.environ["VERIF_GEN"]) if os.environ.get("VERIF_GEN") else WORKROOT / f"gen-{os.getpid()}"
+_GEN_OWNER = "VERIF_GEN" not in os.environ
+os.environ["VERIF_GEN"] = str(GEN)
 PY = "/venv/bin/python"
 GUARD = "CHARTPARSE_VERIF"
 
@@ -98,6 +102,8 @@ class Work:
         if os.environ.get("VERIF_KEEP_WORK"):
             return
         shutil.rmtree(self.dir, ignore_errors=True)
+        if _GEN_OWNER:
+            shutil.rmtree(GEN, ignore_errors=True)
         try:
             WORKROOT.rmdir()
         except OSError:
@@ -158,3 +164,15 @@ def cps(s: str) -> list[int]:
 def td_us(td) -> int:
     """Exact integer microseconds of a timedelta."""
     return (td.days * 86400 + td.seconds) * 1000000 + td.microseconds
+
+
+DOCUMENTED_ERRORS = ("MissingRequiredField", "RegexNotMatchError", "ValueError")
+
+
+def exc_name(e) -> str:
+    """The class an exception is reported as: the first DOCUMENTED error class it is an instance of (a subclass of
+    ValueError IS a ValueError for every caller that relies on the documented errors), otherwise its own class name."""
+    for c in type(e).__mro__:
+        if c.__name__ in DOCUMENTED_ERRORS:
+            return c.__name__
+    return type(e).__name__
